@@ -54,8 +54,18 @@ func (w *World) can(tr string) bool {
 	}
 	var r *remote
 	switch f[0] {
-	case "adv", "advms", "tick", "utick", "want":
+	case "adv", "advms", "tick", "utick", "want", "creq", "setconf":
 		return true
+	case "cdel":
+		return w.consumers[fmt.Sprintf("%d/%d", ai(1), ai(2))] > 0
+	case "complete", "fail":
+		return !w.t.Pieces.Complete(uint32(ai(1)))
+	case "ropen":
+		return len(w.readers) < 2
+	case "rread", "rseek", "rclose":
+		return ai(1) < len(w.readers) && !w.readers[ai(1)].busy && !w.readers[ai(1)].closed
+	case "rcancel":
+		return ai(1) < len(w.readers) && !w.readers[ai(1)].closed && w.readers[ai(1)].ctx.Err() == nil
 	case "mtick":
 		return w.t.infoComplete == 0
 	case "ev", "drain":
